@@ -71,3 +71,106 @@ package scheduler
 //@     invariant #F.from-edges forall d string :: len(g.from[d]) >= old(len(g.from[d])) && (forall j int :: 0 <= j && j < old(len(g.from[d])) ==> g.from[d][j] == old(g.from[d][j])) && (forall j int :: old(len(g.from[d])) <= j && j < len(g.from[d]) ==> g.from[d][j] == stage.Name)
 //@     invariant #F.from-exact forall d string :: len(g.from[d]) > old(len(g.from[d])) <==> (exists j int :: 0 <= j && j <= rangeindex && stage.DependsOn[j] == d)
 //@     invariant #B.clean rangeindex >= 0 && unfoldR(g) ==> !reachP(stage.Name, stage.Name)
+
+// ---- scheduling (C01-C04, C18): stage statuses under concurrency
+// Status values: StatusWaiting=0 StatusRunning=1 StatusSkipped=2 StatusDone=3 StatusError=4 StatusCanceled=5
+//@ pred finished(s *Stage) := s.Status == StatusDone || s.Status == StatusSkipped || (s.Status == StatusError && s.AllowFailure)
+//@ pred blocking(s *Stage) := s.Status == StatusCanceled || (s.Status == StatusError && !s.AllowFailure)
+//@ pred terminal(s *Stage) := s.Status != StatusWaiting && s.Status != StatusRunning
+// single-step transition every writer must respect, and its closure (what other threads may have done meanwhile)
+//@ pred stT(o int32, n int32, x *Stage) := o == n || (o == StatusWaiting && (n == StatusRunning || n == StatusSkipped || n == StatusError || n == StatusCanceled)) || (o == StatusRunning && (n == StatusDone || n == StatusError)) || (o == StatusError && n == StatusDone && x.AllowFailure)
+//@ pred stR(o int32, n int32, x *Stage) := o == n || (o == StatusWaiting && 0 <= n && n <= 5) || (o == StatusRunning && (n == StatusDone || n == StatusError)) || (o == StatusError && n == StatusDone && x.AllowFailure)
+//@ shared Stage.Status transition stT(old, new, x) closure stR(old, new, x)
+//@ lemma #T-in-R forall o int32, n int32, x *Stage :: stT(o, n, x) ==> stR(o, n, x)
+//@ lemma #R-refl forall o int32, x *Stage :: stR(o, o, x)
+//@ lemma #R-trans forall a int32, b int32, c int32, x *Stage :: stR(a, b, x) && stR(b, c, x) ==> stR(a, c, x)
+//@ lemma #never-back-to-waiting forall o int32, n int32, x *Stage :: stR(o, n, x) && o != StatusWaiting ==> n != StatusWaiting
+//@ lemma #finished-blocking-disjoint forall s *Stage :: !(finished(s) && blocking(s))
+//@ lemma #terminal-is-finished-or-blocking forall s *Stage :: 0 <= s.Status && s.Status <= 5 ==> (terminal(s) <==> (finished(s) || blocking(s)))
+
+// ghost: a stage goroutine has been created for the stage (ownership of its status passed to that goroutine)
+//@ ghost spawned map[*Stage]bool
+
+// wfS: every node is non-nil and every recorded dependency names a node (no dangling reference, C18)
+//@ pred wfS(p *ExecutionGraph) := p != nil && p.nodes != nil && (forall n string :: n in p.nodes ==> p.nodes[n] != nil && p.nodes[n].Name == n) && (forall n string, j int :: n in p.nodes && 0 <= j && j < len(p.to[n]) ==> p.to[n][j] in p.nodes)
+// depsAre: the recorded dependency list of a stage is its depends_on (established by AddStage / buildPipeline)
+//@ pred depsAre(p *ExecutionGraph) := forall n string :: n in p.nodes ==> seqeq(p.to[n], p.nodes[n].DependsOn)
+//@ pred depsFinished(p *ExecutionGraph, st *Stage) := forall j int :: 0 <= j && j < len(p.to[st.Name]) ==> finished(p.nodes[p.to[st.Name][j]])
+//@ pred someDepBlocking(p *ExecutionGraph, st *Stage) := exists j int :: 0 <= j && j < len(p.to[st.Name]) && blocking(p.nodes[p.to[st.Name][j]])
+
+//@ func checkStatus
+//@   requires wfS(p) && stage != nil && stage.Name in p.nodes
+//@   requires stage.Status == StatusWaiting
+//@   owns x *Stage :: x == stage
+//@   modifies stage.Status
+//@   ensures #C01.ready-sound ready ==> depsFinished(p, stage)
+//@   ensures #C04.ready-complete old(depsFinished(p, stage)) ==> ready
+//@   ensures #status stage.Status == StatusWaiting || stage.Status == StatusCanceled
+//@   ensures #C02.cancel-justified stage.Status == StatusCanceled ==> someDepBlocking(p, stage)
+//@   ensures #C02.cancel-complete old(someDepBlocking(p, stage)) ==> stage.Status == StatusCanceled
+//@   ensures #C02.cancel-not-ready stage.Status == StatusCanceled ==> !ready
+//@   loop 1 "range p.To(stage.Name)"
+//@     invariant #same p == p0 && stage == stage0
+//@     invariant #status stage.Status == StatusWaiting || stage.Status == StatusCanceled
+//@     invariant #C01.sound ready ==> (forall j int :: 0 <= j && j <= rangeindex ==> finished(p.nodes[p.to[stage.Name][j]]))
+//@     invariant #C04.complete old(depsFinished(p, stage)) ==> ready
+//@     invariant #C02.justified stage.Status == StatusCanceled ==> (exists j int :: 0 <= j && j <= rangeindex && blocking(p.nodes[p.to[stage.Name][j]]))
+//@     invariant #C02.complete (exists j int :: 0 <= j && j <= rangeindex && old(blocking(p.nodes[p.to[stage.Name][j]]))) ==> stage.Status == StatusCanceled
+//@     invariant #C02.not-ready stage.Status == StatusCanceled ==> !ready
+//@   callsite logrus.Fatal
+//@     requires #C18.no-dangling-dependency false
+
+//@ func (*Scheduler).isDone
+//@   requires wfS(p)
+//@   modifies nothing
+//@   ensures #C03.done-means-terminal result ==> (forall n string :: n in p.nodes ==> terminal(p.nodes[n]))
+//@   loop 1 "range p.Nodes()"
+//@     invariant #same p == p0
+//@     invariant #C03.seen-terminal forall n string :: $seen[n] ==> terminal(p.nodes[n])
+
+//@ shared Scheduler.cancelled anywriter transition old == new || new == 1 closure old == new || new == 1
+//@ shared ExecutionGraph.error anywriter transition old == new || new != nil closure old == new || new != nil
+
+// nestedSchedulable(p): every pipeline included by a stage of p (recursively) is schedulable; its
+// one-step unfolding is assumed at the spawn site (recursive data-structure invariant, see DESIGN.md)
+//@ fun nestedSchedulable(p *ExecutionGraph) bool
+//@ pred hasWork(p *ExecutionGraph) := forall n string :: n in p.nodes ==> p.nodes[n].Pipeline != nil || p.nodes[n].Task != nil
+//@ pred schedulable(p *ExecutionGraph) := wfS(p) && depsAre(p) && hasWork(p) && (forall n string :: n in p.nodes ==> !spawned[p.nodes[n]]) && nestedSchedulable(p)
+
+//@ func checkStageCondition
+//@   nomod
+
+//@ func (*Scheduler).Schedule
+//@   requires s != nil && s.taskRunner != nil && schedulable(g)
+//@   owns x *Stage :: !spawned[x] && x.Name in g.nodes && g.nodes[x.Name] == x
+//@   modifies *
+//@   ensures #C03.quiescent s.cancelled == 1 || (forall n string :: n in g.nodes ==> terminal(g.nodes[n]))
+//@   loop 1 "!s.isDone(g)"
+//@     invariant #same s == s0 && g == g0 && s != nil && s.taskRunner != nil && wfS(g) && depsAre(g) && hasWork(g) && nestedSchedulable(g)
+//@     invariant #J forall n string :: n in g.nodes && spawned[g.nodes[n]] ==> g.nodes[n].Status != StatusWaiting
+//@   loop 2 "range g.Nodes()"
+//@     invariant #same s == s0 && g == g0 && s != nil && s.taskRunner != nil && wfS(g) && depsAre(g) && hasWork(g) && nestedSchedulable(g)
+//@     invariant #J forall n string :: n in g.nodes && spawned[g.nodes[n]] ==> g.nodes[n].Status != StatusWaiting
+//@   callsite go Schedule$2
+//@     assumepre nestedSchedulable(g) && stage.Pipeline != nil ==> schedulable(stage.Pipeline)
+//@     requires #C03.first-spawn !spawned[stage]
+//@     ghostpre spawned[stage] = true
+
+// the stage goroutine
+//@ func (*Scheduler).Schedule$2
+//@   requires s != nil && s.taskRunner != nil && g != nil && stage != nil && spawned[stage] && stage.Status == StatusRunning
+//@   requires #C01.deps-finished forall j int :: 0 <= j && j < len(stage.DependsOn) ==> g.nodes[stage.DependsOn[j]] != nil && finished(g.nodes[stage.DependsOn[j]])
+//@   requires #nested stage.Pipeline != nil ==> schedulable(stage.Pipeline)
+//@   requires #has-work stage.Pipeline != nil || stage.Task != nil
+//@   owns x *Stage :: x == stage
+//@   modifies *
+
+//@ func (*Scheduler).runStage
+//@   requires s != nil && s.taskRunner != nil && stage != nil
+//@   owns x *Stage :: x == stage
+//@   requires #nested stage.Pipeline != nil ==> schedulable(stage.Pipeline)
+//@   requires #has-work stage.Pipeline != nil || stage.Task != nil
+//@   modifies *
+//@   ensures #own-status-untouched stage.Status == old(stage.Status)
+//@   callsite Schedule
+//@     assume stage.Status == old(stage.Status) // a stage is not a node of the pipeline it includes (see known finding: pipeline inclusion cycles)
